@@ -8,6 +8,7 @@ import (
 	"github.com/preslavrachev/gomjml/mjml/constants"
 	"github.com/preslavrachev/gomjml/mjml/html"
 	"github.com/preslavrachev/gomjml/mjml/options"
+	"github.com/preslavrachev/gomjml/mjml/styles"
 	"github.com/preslavrachev/gomjml/parser"
 )
 
@@ -62,6 +63,24 @@ func (c *MJGroupComponent) getAttribute(name string) string {
 
 func (c *MJGroupComponent) GetTagName() string {
 	return "mj-group"
+}
+
+// GetWidthClass returns the responsive width class the group's root element carries and the
+// width it encodes, resolved exactly as Render resolves it. The head pre-pass uses it so that
+// every class used in the body gets its media-query rule.
+func (c *MJGroupComponent) GetWidthClass() (string, styles.Size) {
+	groupWidth := c.getAttribute("width")
+	if strings.HasSuffix(groupWidth, "px") {
+		var widthPx int
+		fmt.Sscanf(groupWidth, "%dpx", &widthPx)
+		return fmt.Sprintf("mj-column-px-%d", widthPx), styles.NewPixelSize(float64(widthPx))
+	}
+	if strings.HasSuffix(groupWidth, "%") {
+		var percent float64
+		fmt.Sscanf(groupWidth, "%f%%", &percent)
+		return generateDecimalCSSClass(percent), styles.NewPercentSize(percent)
+	}
+	return "mj-column-per-100", styles.NewPercentSize(100)
 }
 
 // Render implements optimized Writer-based rendering for MJGroupComponent
